@@ -133,7 +133,9 @@ CURATED = {
     # orthogonal region wider than 8 (two bit units) followed by orthogonal siblings: unit offsets of later regions
     'k_ortho_wide9': O(O(L, L, L, L, L, L, L, L, C('Composite', L, L)), O(C('Resumable', L, L), C('Composite', L, L)), C('Composite', L, O(L, L))),
     # orthogonal region exactly 8 wide (its prong-bit view ends on a unit boundary) whose prongs hold nested regions
-    'k_ortho_w8': C('Composite', L, O(C('Composite', L, C('Composite', L, L)), L, L, L, L, L, C('Resumable', L, C('Resumable', L, L)), C('Composite', L, L)), L),
+    'k_ortho_w8': C('Composite', O(C('Composite', L, C('Composite', L, L)), L, L, L, L, L, C('Resumable', L, C('Resumable', L, L)), C('Composite', L, L)), L),
+    # the same width off prong 0 of the root (a write one unit past the prong bits lands on the root's active prong, which is 0 in the shape above)
+    'k_ortho_w8b': C('Composite', L, O(C('Composite', L, C('Composite', L, C('Resumable', L, L))), L, L, L, L, L, L, C('Resumable', L, L)), L),     # also three composite levels below the orthogonal region
     # wide random regions of plain states (rounding in the cumulative walk, trailing zero utilities)
     'k_random_wide': C('Composite', C('Random', L, L, L, L, L, L), C('Random', L, L, L, C('Utilitarian', L, L), L), L),
     # orthogonal regions nested directly in orthogonal regions, below composite regions that are inactive part of the time
